@@ -45,7 +45,7 @@ deriving DecidableEq, Repr
 /-- result: frames written, final channel, whether an exception escapes -/
 def chanClose (c : ChanSt) (code : Nat) (text : String) (cancelsFail : Bool) (e : RpcEnd) :
     List Sent × ChanSt × Bool :=
-  if c.connClosed ∨ c.state ≠ open_ then
+  if c.connClosed ∨ (if Gen.Close.closeBacksOffUnlessOpen then c.state ≠ open_ else c.state = closed) then
     -- forced path: stop_consuming (nothing is sent on a channel that is not open …) ; finally: CLOSED
     -- (on a CLOSING/OPENING channel with consumers `stop_consuming` would still try to cancel: state ≠ CLOSED)
     let cancels := if c.state ≠ closed ∧ ¬ c.connClosed then (stopConsuming c.tags).map Sent.cancel else []
